@@ -4,7 +4,7 @@ PROP = {
     "generated": ["HandlerFlags", "FlushTable"],
     "lean_modules": ["SwimVerif.Model.Handlers", "SwimVerif.Model.HandlersIO", "SwimVerif.Model.HandlersMon",
                      "SwimVerif.Model.HandlersFlush", "SwimVerif.Proofs.Handlers", "SwimVerif.Proofs.HandlersInv",
-                     "SwimVerif.Proofs.HandlersFlush", "SwimVerif.Generated.HandlerFlags",
+                     "SwimVerif.Proofs.HandlersFlush", "SwimVerif.Proofs.HandlersMap", "SwimVerif.Generated.HandlerFlags",
                      "SwimVerif.Generated.FlushTable"],
     "engines": [
         # lock-step: one request at a time, run to quiescence; model diff + monitor
@@ -26,7 +26,8 @@ PROP = {
          "nontrivial_min_ops": 2},
     ],
     "level_text": "Proof: for every handler program of the modelled language (effect/get/set/get-and_then-set/map "
-                  "update, remove, clear, get/followed_by/and_then/Sequentially/Either/Option/fail/stop/suspend, in "
+                  "update, remove, clear, get, transform_entry (all four arms), with_entry, the take/drop commands "
+                  "(MapLaneDropOrTake/MapLaneRemoveMultiple: removals one per step in ascending key order)/followed_by/and_then/Sequentially/Either/Option/fail/stop/suspend, in "
                   "every intermediate state of the real combinators), every lifecycle (cyclic ones included), every "
                   "agent state and every recursion bound, the small-step model of run_handler (loop over "
                   "HandlerAction::step, recursion on TRIGGER_HANDLER, previous slot consumed by read_with_prev) "
